@@ -17,7 +17,7 @@ from harness import coqeval  # noqa: E402
 from quri_parts.core.operator import PauliLabel, pauli_label  # noqa: E402
 from quri_parts.core.operator.pauli import _parse_pauli_label_str  # noqa: E402
 
-IMPORTS = "From Coq Require Import ZArith NArith List String.\nFrom QPM Require Import LabelString.\n"
+IMPORTS = "From Coq Require Import ZArith NArith List String.\nFrom QPM Require Import LabelString LabelSort.\n"
 DEFS = ""
 WS = [" ", " ", " ", "\t", "\n", "\r", "\x0b", "\x0c", "\x1c", "\x1d", "\x1e", "\x1f", "  "]
 ALPHA = list("XYZI0123456789 ") + ["\t", "\n", "A", "x", "-", "+", "_", ".", "\x1c", "\x00", "~"]
@@ -95,7 +95,10 @@ def main():
                 res.fail("corr:label_string:round_trip", f"from_str(str(label)) = {back!r} is not the label {lab!r}", {"pairs": pairs})
         except Exception as e:  # noqa: BLE001
             res.fail("corr:label_string:round_trip", f"from_str({s!r}) raised {type(e).__name__}: {e}", {"pairs": pairs})
-        terms.append("run_show [" + "; ".join(f"({i}%N, {p}%N)" for i, p in pairs) + "]")
+        # the model sorts by index itself (LabelSort.str_of): the pairs go in as drawn, in random order
+        drawn = list(pairs)
+        rng.shuffle(drawn)
+        terms.append("run_str [" + "; ".join(f"({i}%N, {p}%N)" for i, p in drawn) + "]")
         expect.append([ord(ch) for ch in s])
         infos.append(("show", {"pairs": pairs}))
         strings = [s]
